@@ -4,11 +4,12 @@ from __future__ import annotations
 import itertools
 import json
 import random
+from concurrent.futures import ThreadPoolExecutor
 from typing import Any
 
 from harness import c02_util as U
 from harness.common import VERIF, Ck, coq_list, coq_str
-from translate import c02_tables
+from translate import c02_tables, c03_kvparse
 
 MANIFEST = dict(
     technique='Rocq proof (generic chunked-reader = flat-reader simulation for every reader program; totality, progress, '
@@ -98,7 +99,7 @@ def _impl_shard(job) -> tuple[int, int, dict, int, list]:
                 bad.append(('foreign-exception', s, bits, None))
             elif k == 'eof' and (ref[-5:] != [1, 0, ref[-3], ref[-2], 0] or ref[-10:-5] != ref[-5:]):
                 bad.append(('EOF-not-for-ever', s, bits, None))
-            if len(bad) < 50:
+            if len(bad) < 50 and (len(s) <= full_cuts or bits in _REP_SET):
                 for cs in alts:
                     ocnt += 1
                     if U.impl_results(iter(cs), bits, nc) != ref:
@@ -127,6 +128,7 @@ def _outcome(res: list[int]) -> str:
 
 
 REPRESENTATIVE_BITS = [0, 127] + [1 << i for i in range(7)] + [127 ^ (1 << i) for i in range(7)]   # every option alone on / alone off
+_REP_SET = frozenset(REPRESENTATIVE_BITS)
 
 
 def corr_exhaustive(ck: Ck, escalate: bool) -> None:
@@ -141,9 +143,11 @@ def corr_exhaustive(ck: Ck, escalate: bool) -> None:
     oracle_parts = []
     for n, groups, fc in phases:
         jobs = [[f'tok_shard_hash {U.coq_chars(g)} [] {U.coq_chars(alpha)} {n}'] for g in groups]
-        totals = U.pool_map(_impl_shard, [(g, n, fc) for g in groups], workers=14)
+        with ThreadPoolExecutor(1) as ex:         # the model side (coqc processes) runs while the implementation side is computed
+            fut = ex.submit(U.coq_eval_many, ck, jobs, f'c03exh{n}', timeout=840, workers=14)
+            totals = U.pool_map(_impl_shard, [(g, n, fc) for g in groups], workers=14)
+            res = fut.result()
         oracle_parts += [(t[3], t[4]) for t in totals]
-        res = U.coq_eval_many(ck, jobs, f'c03exh{n}', timeout=840, workers=14)
         for g, r, (tot, cnt, hist, _oc, _ob) in zip(groups, res, totals):
             ck.count('corr_exhaustive_cases', cnt)
             ncases += cnt
@@ -294,6 +298,320 @@ def _impl_chk_trace(bits: int, whole: bool, cs: list[str]) -> list[int]:
             break
         out += [1, t.value, tk.line_num, int(tk._last_was_cr), len(v), *map(ord, v), tk._char_index + 1, len(tk._cur_chunk)]
     return out
+
+
+
+# ------------------------------------------------------------------------------------------------ Keyvalues.parse: error typing
+KV_IMPORTS = U.IMPORTS + ['SV.Text.KvErrModel', 'SV.Text.KvErrGen']
+# token alphabet for Keyvalues.parse(IterTokenizer(...)): (Token value, string)
+KV_TOK_ALPHA = [(1, 'a'), (1, 'b\n'), (11, 'x'), (11, '!x'), (11, ''), (2, '\n'), (6, '{'), (7, '}'), (15, '=')]
+KV_TOK_NAMES = ['STR', 'STRNL', 'FLAGOFF', 'FLAGON', 'FLAGEMPTY', 'NL', 'OPEN', 'CLOSE', 'EQUALS']
+KV_FLAGSETS = [{}, {'x': True, 'win32': False}]
+KV_TEXT_ALPHA = ['"', '\\', '/', '{', '}', '[', ']', '\r', '\n', ' ', 'a', '#', '!']
+KV_TEXT_MODES = [(2, True, 0), (7, True, 0), (0, False, 0), (10, True, 1)]     # (option bits, allow_escapes, flag set)
+_KV_PREFIX = [(109, 'Block opening ("{") required, but hit EOF!'), (101, 'Keyvalues cannot have sub-section'),
+              (102, 'Block opening ("{") required!'), (102, 'Block opening ("{{") required!'), (103, 'Illegal newline found in key'), (104, 'Illegal newline found in value'),
+              (105, 'Cannot have multiple names'), (106, 'Too many closing brackets.'), (108, 'Expected '),
+              (110, 'End of text reached'), (107, 'Unexpected '), (107, 'File ended unexpectedly!')]
+_FOREIGN = {'IndexError': 301, 'KeyError': 302, 'ValueError': 303, 'TypeError': 304, 'AssertionError': 305, 'AttributeError': 306}
+KV_CODE_NAMES = {0: 'ok', 101: 'subsection-after-value', 102: 'block-required', 103: 'newline-in-key', 104: 'newline-in-value',
+                 105: 'multiple-names', 106: 'too-many-close', 107: 'unexpected-token', 108: 'expected-newline',
+                 109: 'eof-block-required', 110: 'eof-open-blocks', 301: 'FOREIGN IndexError'}
+
+
+def kv_kw(bits: int) -> dict:
+    return dict(newline_keys=bool(bits & 1), newline_values=bool(bits & 2), single_line=bool(bits & 4), single_block=bool(bits & 8))
+
+
+def kv_code(arg: Any, bits: int, ae: bool, flags: dict) -> tuple[int, str]:
+    """Outcome class of Keyvalues.parse as KvErrGen.outcome_code encodes it (+ a description)."""
+    from srctools.keyvalues import KeyValError, Keyvalues
+    from srctools.tokenizer import TokenSyntaxError
+    try:
+        Keyvalues.parse(arg, flags=flags, allow_escapes=ae, **kv_kw(bits))
+        return 0, 'ok'
+    except KeyValError as e:
+        i, _ = U.err_code(e.mess)
+        if i != 99:
+            return 150 + i, e.mess
+        for c, pre in _KV_PREFIX:
+            if e.mess.startswith(pre):
+                return c, e.mess
+        return 198, e.mess
+    except TokenSyntaxError as e:
+        return 400, f'TokenSyntaxError that is not a KeyValError: {e.mess}'
+    except BaseException as e:  # noqa: BLE001 - the property says nothing else may escape
+        return _FOREIGN.get(type(e).__name__, 399), f'{type(e).__name__}: {e}'
+
+
+def dfs_upto(alpha: list, n: int):
+    """All sequences over alpha up to length n in the order of TokEnum.strings_upto (prefix order)."""
+    yield ()
+    if n > 0:
+        for c in alpha:
+            for w in dfs_upto(alpha, n - 1):
+                yield (c,) + w
+
+
+def kv_name(c: int) -> str:
+    return KV_CODE_NAMES.get(c, f'lexer:{U.ERR_NAMES.get(c - 150, c)}' if 150 <= c < 300 else str(c))
+
+
+def kv_tokens_arg(ixs):
+    from srctools.tokenizer import IterTokenizer, Token
+    return IterTokenizer([(Token(KV_TOK_ALPHA[i][0]), KV_TOK_ALPHA[i][1]) for i in ixs])
+
+
+def _kv_tok_shard(job) -> list[int]:
+    bits, fs, n = job
+    return [kv_code(kv_tokens_arg(ix), bits, True, KV_FLAGSETS[fs])[0] for ix in dfs_upto(list(range(len(KV_TOK_ALPHA))), n)]
+
+
+def _kv_text_shard(job) -> list[int]:
+    bits, ae, fs, n = job
+    return [kv_code(''.join(t), bits, ae, KV_FLAGSETS[fs])[0] for t in dfs_upto(KV_TEXT_ALPHA, n)]
+
+
+def coq_flags(fs: dict) -> str:
+    return coq_list(f'({coq_str(k)}, {"true" if v else "false"})' for k, v in fs.items())
+
+
+def gen_kv_text(rng: random.Random) -> str:
+    """Mostly well-formed KeyValues text with [flags], nested blocks, and a few stray tokens."""
+    nl = rng.choice(['\n', '\n', '\r\n', '\r'])
+    flagsrc = ['[x]', '[!x]', '[]', '[win32]', '[!win32]', '[$X]', '[!]', '[X360]']
+    out: list[str] = []
+
+    def name() -> str:
+        return rng.choice(['"a"', '"b"', 'c', '"a"', '"k\\n"', '"multi' + nl + 'line"', '""'])
+
+    def items(depth: int) -> None:
+        for _ in range(rng.choice([0, 1, 1, 2, 3])):
+            r = rng.random()
+            if r < 0.4:
+                out.append(name() + ' ' + name() + (' ' + rng.choice(flagsrc) if rng.random() < 0.5 else '') + nl)
+            elif r < 0.8 and depth < 3:
+                out.append(name() + (' ' + rng.choice(flagsrc) if rng.random() < 0.6 else '') + rng.choice([nl, nl, ' ', '']))
+                out.append('{' + rng.choice([nl, '', ' ']))
+                items(depth + 1)
+                out.append('}' + rng.choice([nl, nl, '', ' ']))
+            elif r < 0.9:
+                out.append(rng.choice(['}', '{', '[x]' + nl, '"a" "b" "c"' + nl, '"a"', '// c' + nl, '"a" [x] "b"' + nl, '=', '"a" "b" [x] [x]' + nl, '"unterminated']))
+            else:
+                out.append(nl)
+    items(0)
+    if rng.random() < 0.2:
+        out = out[:max(1, len(out) // 2)]
+    return ''.join(out)
+
+
+def gen_kv_tokens(rng: random.Random) -> list[int]:
+    """Structured token-index sequences (lines `STR STR [FLAG] NL`, blocks `STR [FLAG] NL OPEN ... CLOSE`) with noise."""
+    S, SNL, FOFF, FON, FEMPTY, NL, OPEN, CLOSE, EQ = range(9)
+    out: list[int] = []
+
+    def flag() -> list[int]:
+        return [rng.choice([FOFF, FON, FON, FOFF, FEMPTY])] if rng.random() < 0.6 else []
+
+    def items(depth: int) -> None:
+        for _ in range(rng.choice([0, 1, 1, 2, 3])):
+            r = rng.random()
+            if r < 0.4:
+                out.extend([S, rng.choice([S, S, SNL]), *flag(), NL])
+            elif r < 0.85 and depth < 3:
+                out.extend([S, *flag(), NL, OPEN])
+                if rng.random() < 0.5:
+                    out.append(NL)
+                items(depth + 1)
+                out.append(CLOSE)
+                if rng.random() < 0.7:
+                    out.append(NL)
+            else:
+                out.append(rng.randrange(9))
+    items(0)
+    return out
+
+
+def _shrink_list(xs: list, pred) -> list:
+    cur = list(xs)
+    changed = True
+    while changed:
+        changed = False
+        for i in range(len(cur)):
+            cand = cur[:i] + cur[i + 1:]
+            if pred(cand):
+                cur, changed = cand, True
+                break
+    return cur
+
+
+def report_kv_tokens(ck: Ck, ixs: list[int], bits: int, fs: int) -> None:
+    c0, _ = kv_code(kv_tokens_arg(ixs), bits, True, KV_FLAGSETS[fs])
+    if capped(f'kvtok-foreign:{c0}'):
+        return
+    small = _shrink_list(ixs, lambda t: kv_code(kv_tokens_arg(t), bits, True, KV_FLAGSETS[fs])[0] == c0)
+    for b in (1, 2, 4, 8):         # drop options that are not needed
+        if bits & b and kv_code(kv_tokens_arg(small), bits & ~b, True, KV_FLAGSETS[fs])[0] == c0:
+            bits &= ~b
+    c, what = kv_code(kv_tokens_arg(small), bits, True, KV_FLAGSETS[fs])
+    ck.violation('kvparse-foreign-exception:' + what.split(':')[0] + ':tokens:' + '+'.join(KV_TOK_NAMES[i] for i in small[:12]),
+                 f'Keyvalues.parse(IterTokenizer({[(KV_TOK_NAMES[i], KV_TOK_ALPHA[i][1]) for i in small]}), flags={KV_FLAGSETS[fs]}, **{kv_kw(bits)}) '
+                 f'raised {what} (only KeyValError may escape)',
+                 {'kind': 'kvparse-tokens', 'tokens': small, 'bits': bits, 'flagset': fs})
+
+
+def report_kv_text(ck: Ck, text: str, bits: int, ae: bool, fs: int) -> None:
+    c0, _ = kv_code(text, bits, ae, KV_FLAGSETS[fs])
+    if capped(f'kvtext-foreign:{c0}'):
+        return
+    small = shrink(text, lambda t: kv_code(t, bits, ae, KV_FLAGSETS[fs])[0] == c0)
+    c, what = kv_code(small, bits, ae, KV_FLAGSETS[fs])
+    kw = dict(kv_kw(bits), allow_escapes=ae)
+    ck.violation('kvparse-foreign-exception:' + what.split(':')[0] + ':' + '+'.join(cname(ch) for ch in small[:8]),
+                 f'Keyvalues.parse({small!r}, flags={KV_FLAGSETS[fs]}, **{kw}) raised {what} (only KeyValError may escape)',
+                 {'kind': 'kvparse', 'text': [ord(ch) for ch in small], 'kw': kw, 'flags': KV_FLAGSETS[fs]})
+
+
+def corr_kvparse(ck: Ck, escalate: bool) -> None:
+    """Exception-level model of Keyvalues.parse (Text/KvErrModel.v, configured by the site census) vs the real parser:
+    outcome class (ok / which KeyValError / which tokenizer error / foreign exception) on token streams fed through
+    IterTokenizer and on texts.  A foreign exception of the implementation is reported as a concrete violation."""
+    big = ck.thorough or escalate or bool(ck.tie_broken)
+    rng = ck.rng
+    # ---- (1) exhaustive token level
+    n_all, n_deep = (5, 6) if big else (4, 5)
+    deep_bits = [2, 10, 6, 3] if big else [2, 10, 6]
+    tjobs = [(b, 0, n_all) for b in range(16)] + [(b, 0, n_deep) for b in deep_bits] + [(2, 1, n_all), (10, 1, n_all)]
+    alpha = coq_list(f'({v}, {coq_str(sv)})' for v, sv in KV_TOK_ALPHA)
+    cjobs = [[f'hfin (hash_list (kv_tokens_shard [{b}] {coq_flags(KV_FLAGSETS[fs])} {alpha} {n}))'] for b, fs, n in tjobs]
+    # ---- (2) exhaustive text level
+    n_txt = 4 if big else 3
+    xjobs = [(b, ae, fs, n_txt) for b, ae, fs in KV_TEXT_MODES]
+    talpha = U.coq_chars(ord(c) for c in KV_TEXT_ALPHA)
+    cjobs += [[f'hfin (hash_list (kv_text_shard {b} {"true" if ae else "false"} {coq_flags(KV_FLAGSETS[fs])} {talpha} {n}))'] for b, ae, fs, n in xjobs]
+    # ---- (3) structured random token streams and texts, as literals
+    m = 6000 if big else 1500
+    rt = []
+    for _ in range(m):
+        ixs = gen_kv_tokens(rng)
+        b, fs = rng.choice([2, 2, 10, 6, rng.randrange(16)]), rng.choice([0, 0, 1])
+        rt.append((b, fs, ixs, kv_code(kv_tokens_arg(ixs), b, True, KV_FLAGSETS[fs])[0]))
+        ck.hist('kvparse_random_tokens_len', min(len(ixs), 30) // 5 * 5)
+    rx = []
+    for i in range(m):
+        t = gen_kv_text(rng) if i % 4 else gen_text(rng)
+        b, ae, fs = rng.choice(KV_TEXT_MODES + [(rng.randrange(16), rng.random() < 0.8, rng.choice([0, 1]))])
+        rx.append((b, ae, fs, t, kv_code(t, b, ae, KV_FLAGSETS[fs])[0]))
+        ck.hist('kvparse_random_text_len', min(len(t), 100) // 20 * 20)
+    lit_jobs = []
+    for lo in range(0, len(rt), 500):
+        lit = coq_list(f'kv_tokens_code {b} {coq_flags(KV_FLAGSETS[fs])} {coq_list(f"({KV_TOK_ALPHA[i][0]}, {coq_str(KV_TOK_ALPHA[i][1])})" for i in ixs)}'
+                       for b, fs, ixs, _ in rt[lo:lo + 500])
+        lit_jobs.append([lit])
+    for lo in range(0, len(rx), 500):
+        lit = coq_list(f'kv_text_code {b} {"true" if ae else "false"} {coq_flags(KV_FLAGSETS[fs])} {coq_str(t)}' for b, ae, fs, t, _ in rx[lo:lo + 500])
+        lit_jobs.append([lit])
+    # in-kernel search for a foreign exit of the model
+    wit_job = [f'kv_foreign_witnesses [2;10;6;15] {coq_flags(KV_FLAGSETS[0])} {alpha} 4']
+    with ThreadPoolExecutor(1) as ex:
+        fut = ex.submit(U.coq_eval_many, ck, cjobs + lit_jobs + [wit_job], 'c03kv', imports=KV_IMPORTS, timeout=600, workers=14)
+        impl_tok = U.pool_map(_kv_tok_shard, tjobs, workers=14)
+        impl_txt = U.pool_map(_kv_text_shard, xjobs, workers=8)
+        res = fut.result()
+    bad: list[str] = []
+    ok_eval = all(r is not None for r in res)
+    ncases = 0
+
+    def ints(v: str) -> list[int]:
+        return [int(x) for x in _split_ints(v)] if v.strip() not in ('[]', 'nil') else []
+    if ok_eval:
+        for job, r, imp in zip(tjobs, res[:len(tjobs)], impl_tok):
+            ncases += len(imp)
+            for c in imp:
+                ck.hist('kvparse_token_outcome', kv_name(c))
+            if U.parse_int63(r[0]) != U.hash_list(imp):
+                # locate: literal model results at a smaller length
+                n2 = min(job[2], 4)
+                v = ck.coq_eval(KV_IMPORTS, [f'kv_tokens_shard [{job[0]}] {coq_flags(KV_FLAGSETS[job[1]])} {alpha} {n2}'], name='kvlocate', preamble=U.PRE)
+                cases = list(dfs_upto(list(range(len(KV_TOK_ALPHA))), n2))
+                mod = ints(v[0]) if v else []
+                imp2 = [kv_code(kv_tokens_arg(ix), job[0], True, KV_FLAGSETS[job[1]])[0] for ix in cases]
+                j = next((i for i, (a, b) in enumerate(zip(mod, imp2)) if a != b), None)
+                bad.append(f'token level bits={job[0]} flagset={job[1]}: ' + (f'tokens {[KV_TOK_NAMES[i] for i in cases[j]]} model={kv_name(mod[j])} impl={kv_name(imp2[j])}'
+                                                                         if j is not None else f'checksums differ at length {job[2]} only'))
+            for j, c in enumerate(imp):
+                if c >= 300:
+                    cases = list(dfs_upto(list(range(len(KV_TOK_ALPHA))), job[2]))
+                    report_kv_tokens(ck, list(cases[j]), job[0], job[1])
+                    break
+        ck.count('corr_kvparse_tokens_exhaustive', ncases)
+        for job, r, imp in zip(xjobs, res[len(tjobs):len(tjobs) + len(xjobs)], impl_txt):
+            ck.count('corr_kvparse_text_exhaustive', len(imp))
+            for c in imp:
+                ck.hist('kvparse_text_outcome', kv_name(c))
+            texts = None
+            if U.parse_int63(r[0]) != U.hash_list(imp):
+                n2 = min(job[3], 3)
+                v = ck.coq_eval(KV_IMPORTS, [f'kv_text_shard {job[0]} {"true" if job[1] else "false"} {coq_flags(KV_FLAGSETS[job[2]])} {talpha} {n2}'],
+                                name='kvlocate', preamble=U.PRE)
+                texts2 = [''.join(t) for t in dfs_upto(KV_TEXT_ALPHA, n2)]
+                mod = ints(v[0]) if v else []
+                imp2 = [kv_code(t, job[0], job[1], KV_FLAGSETS[job[2]])[0] for t in texts2]
+                j = next((i for i, (a, b) in enumerate(zip(mod, imp2)) if a != b), None)
+                bad.append(f'text level bits={job[0]} allow_escapes={job[1]} flagset={job[2]}: ' + (f'text {texts2[j]!r} model={kv_name(mod[j])} impl={kv_name(imp2[j])}'
+                                                                                             if j is not None else f'checksums differ at length {job[3]} only'))
+            for j, c in enumerate(imp):
+                if c >= 300:
+                    texts = texts or [''.join(t) for t in dfs_upto(KV_TEXT_ALPHA, job[3])]
+                    report_kv_text(ck, texts[j], job[0], job[1], job[2])
+                    break
+        lits = res[len(tjobs) + len(xjobs):-1]
+        mod_rt = [x for r in lits[:(len(rt) + 499) // 500] for x in ints(r[0])]
+        mod_rx = [x for r in lits[(len(rt) + 499) // 500:] for x in ints(r[0])]
+        ck.count('corr_kvparse_random_tokens', len(rt))
+        ck.count('corr_kvparse_random_texts', len(rx))
+        for (b, fs, ixs, c), mc in zip(rt, mod_rt):
+            if c != mc:
+                bad.append(f'random tokens bits={b} flagset={fs} {[KV_TOK_NAMES[i] for i in ixs]}: model={kv_name(mc)} impl={kv_name(c)}')
+                break
+        for (b, ae, fs, t, c), mc in zip(rx, mod_rx):
+            if c != mc:
+                bad.append(f'random text bits={b} allow_escapes={ae} flagset={fs} {t!r}: model={kv_name(mc)} impl={kv_name(c)}')
+                break
+        if len(mod_rt) != len(rt) or len(mod_rx) != len(rx):
+            bad.append('literal batches: length mismatch')
+    for b, fs, ixs, c in rt:
+        if c >= 300:
+            report_kv_tokens(ck, ixs, b, fs)
+        if len(ixs) >= 3:
+            ck.seen(('kvt', b, fs, tuple(ixs)))
+    for b, ae, fs, t, c in rx:
+        if c >= 300:
+            report_kv_text(ck, t, b, ae, fs)
+        if len(t) >= 3:
+            ck.seen(('kvx', b, ae, fs, t))
+    ok = ok_eval and not bad
+    ck.obligation('correspondence:kvparse_outcome', ok,
+                  f'exception-level model of Keyvalues.parse vs the implementation, outcome class (ok / which KeyValError / which tokenizer '
+                  f'error / foreign): every token list over {len(KV_TOK_ALPHA)} tokens up to length {n_all} x 16 option vectors (length {n_deep} x '
+                  f'{len(deep_bits)} vectors) through IterTokenizer ({ncases} cases), every text over {len(KV_TEXT_ALPHA)} symbols up to length {n_txt} x '
+                  f'{len(KV_TEXT_MODES)} modes, {len(rt)} structured random token streams, {len(rx)} random texts: '
+                  + ('agree' if ok else ('model evaluation failed' if not ok_eval else '; '.join(bad[:3]))))
+    if not ok:
+        ck.tie_broken.append('correspondence Keyvalues.parse vs Text/KvErrModel.v')
+        ck.extra['kvparse_disagreements'] = bad[:10]
+    # the model's own witnesses
+    if ok_eval:
+        from harness.common import parse_coq_nested
+        wit = parse_coq_nested(res[-1][0]) if res[-1][0].strip() not in ('[]', 'nil') else []
+        ck.obligation('instance:kvparse_model_has_no_foreign_exit_small_scope', not wit,
+                      'in-kernel enumeration of the parser model (as configured from the source) on every token list up to length 4 x 4 option '
+                      'vectors: ' + ('no foreign exit' if not wit else f'{len(wit)} token lists leave with a foreign exception; first: bits={wit[0][0]} '
+                                     f'tokens={[KV_TOK_NAMES[i] for i in wit[0][1]]}'))
+        for bits, ixs in wit[:3]:
+            if kv_code(kv_tokens_arg(list(ixs)), bits, True, {})[0] >= 300:
+                report_kv_tokens(ck, list(ixs), bits, 0)
+    ck.sample({'kvparse_case': {'tokens': [KV_TOK_NAMES[i] for i in rt[0][2]], 'bits': rt[0][0], 'outcome': kv_name(rt[0][3])}})
 
 
 # ------------------------------------------------------------------------------------------------ oracle on the implementation
@@ -477,7 +795,7 @@ def search(ck: Ck, escalate: bool) -> None:
             for g in range(0, 128, 8):      # (text, option group) - an undercount of the distinct (text, options) cases
                 ck.seen(('ox', s, g))
     ck.hist('oracle', f'all strings <= {scope[0]} over {len(SYN_ALPHA)} symbols x 128 option vectors; every cut set up to length {scope[1]}, '
-                      f'beyond: finest cut with empty chunks + one other cut set + line split', sum(c for c, _ in res))
+                      f'beyond (16 representative option vectors: each option alone on / alone off): finest cut with empty chunks + one other cut set + line split', sum(c for c, _ in res))
     # (b) random longer texts: random chunkings, per-character, lines; read bound; EOF for ever
     rng = ck.rng
     m = 20000 if big else 2500
@@ -532,6 +850,14 @@ def search(ck: Ck, escalate: bool) -> None:
 
 
 # ------------------------------------------------------------------------------------------------ main
+def _stage(ck: Ck, name: str) -> None:
+    """Wall time per stage (evidence only)."""
+    import time
+    now = time.time()
+    ck.extra.setdefault('stage_seconds', {})[name] = round(now - ck.extra.get('_t_last', ck.t0), 1)
+    ck.extra['_t_last'] = now
+
+
 def run(ck: Ck) -> None:
     _REPORTED.clear()
     ck.rule = ('exhaustive: every string over the 23-symbol syntax alphabet (" \\ / * { } [ ] ( ) # : + = , CR LF space a n BOM \' ;) up to '
@@ -550,7 +876,8 @@ def run(ck: Ck) -> None:
     escalate = bool(side) and any(side.get('digests', {}).get(k) != v for k, v in c02_tables.MODEL_DIGESTS.items())
     if escalate:
         ck.notes.append('hand-modelled tokenizer functions changed since the model was written: budgets escalated')
-    built = ok_t and ck.build(['Props/C03.vo', 'Text/TokEnum.vo'])
+    ok_k = ck.translate('KvParseSites_gen', c03_kvparse.translate)
+    built = ok_t and ok_k and ck.build(['Props/C03.vo', 'Text/TokEnum.vo', 'Text/KvErrGen.vo'])
     if built:
         ck.theorems('Props/C03.v')
         ck.instance_obligations(U.IMPORTS + ['SV.Text.TokenizerProofs'], {
@@ -558,9 +885,27 @@ def run(ck: Ck) -> None:
             'token_enum_values_distinct': 'token_values_distinct',
             'operators_name_known_tokens': 'operators_all_known',
         })
+        ck.instance_obligations(KV_IMPORTS, {
+            'keyvalues_parse_every_modelled_site_guarded': 'kv_sites_all_guarded',
+            'read_flag_leading_bang_test_cannot_raise': 'bang_total gen_kcfg',
+            'flag_replace_test_block_only_indexes_nonempty_list': 'guard_replace_block gen_kcfg',
+            'flag_replace_test_leaf_only_indexes_nonempty_list': 'guard_replace_leaf gen_kcfg',
+            'single_block_return_only_indexes_nonempty_root': 'guard_single_root gen_kcfg',
+            'too_many_closing_braces_caught_as_KeyValError': 'close_guarded gen_kcfg',
+            'no_unguarded_indexing_conversion_or_unknown_call_on_the_parse_path': 'kv_no_unmodelled_site',
+            'parse_path_census_wellformed': 'kv_census_rows_wellformed',
+            'error_messages_format_with_the_arguments_passed': 'error_formats_ok',
+        }, name='kvinst')
+        _stage(ck, 'translate+build+theorems+instances')
         corr_exhaustive(ck, escalate)
+        _stage(ck, 'corr_exhaustive')
         corr_random(ck, escalate)
+        _stage(ck, 'corr_random')
+        corr_kvparse(ck, escalate)
+        _stage(ck, 'corr_kvparse')
     search(ck, escalate)
+    _stage(ck, 'search')
+    ck.extra.pop('_t_last', None)
     if ck.violations:
         ck.explain('instance:')
         ck.explain('correspondence:')
@@ -570,13 +915,25 @@ def run(ck: Ck) -> None:
 
 def replay(data: dict) -> int:
     r = data.get('replay', data)
+    if r.get('kind') == 'kvparse-tokens':
+        ixs, bits, fs = r['tokens'], r['bits'], r.get('flagset', 0)
+        c, what = kv_code(kv_tokens_arg(ixs), bits, True, KV_FLAGSETS[fs])
+        print(f'Keyvalues.parse(IterTokenizer({[(KV_TOK_NAMES[i], KV_TOK_ALPHA[i][1]) for i in ixs]}), flags={KV_FLAGSETS[fs]}, **{kv_kw(bits)})\n -> {kv_name(c)}: {what}')
+        alpha = coq_list(f'({KV_TOK_ALPHA[i][0]}, {coq_str(KV_TOK_ALPHA[i][1])})' for i in ixs)
+        mv = U.model_eval([f'kv_tokens_code {bits} {coq_flags(KV_FLAGSETS[fs])} {alpha}'], imports=KV_IMPORTS)
+        if mv is not None:
+            print(f' model (parser model as configured by the last ./check run): {kv_name(int(mv[0].split("%")[0]))}')
+        print('VIOLATED' if c >= 300 else 'property holds on this input')
+        return 1 if c >= 300 else 0
     if 'text' not in r:
         print(json.dumps(r, indent=1)[:3000])
         print('no concrete input recorded (broken proof obligation / correspondence)')
         return 1
     s = ''.join(map(chr, r['text']))
     if r.get('kind', '').startswith('kvparse'):
-        kw = r.get('kw', {})
+        kw = dict(r.get('kw', {}))
+        if r.get('flags'):
+            kw['flags'] = r['flags']
         a = kv_oracle(s, None, **kw)
         b = kv_oracle(s, [c for c in s], **kw)
         print(f'Keyvalues.parse({s!r}, {kw})\n one string : {a}\n per char   : {b}')
